@@ -175,6 +175,24 @@ func (env *specEnv) resolveType(text string) types.Type {
 	case "loc":
 		return types.Typ[types.UnsafePointer]
 	}
+	// remaining basic types (uint64, byte, ...) and map types
+	if tn, ok := types.Universe.Lookup(text).(*types.TypeName); ok {
+		return tn.Type()
+	}
+	if strings.HasPrefix(text, "map[") {
+		depth := 0
+		for i := 3; i < len(text); i++ {
+			switch text[i] {
+			case '[':
+				depth++
+			case ']':
+				depth--
+				if depth == 0 {
+					return types.NewMap(env.resolveType(text[4:i]), env.resolveType(text[i+1:]))
+				}
+			}
+		}
+	}
 	if i := strings.Index(text, "."); i >= 0 {
 		pn, tn := text[:i], text[i+1:]
 		if p := env.findPkg(pn); p != nil {
